@@ -267,12 +267,15 @@ def chk_roi(a, b, roi, slack=Fr(0)):
     got_x = range(nx)[roi[1]]
     got_y = range(ny)[roi[0]]
 
+    def ln(rg):  # len() overflows for huge ranges
+        return max(0, rg.stop - rg.start) if rg.step == 1 else len(rg)
+
     def norm(rg):
-        return None if len(rg) == 0 else (rg.start, rg.stop, rg.step)
+        return None if ln(rg) == 0 else (rg.start, rg.stop, rg.step)
 
     # as a set of pixels: empty if either axis is empty
-    want = (norm(want_y), norm(want_x)) if len(want_x) and len(want_y) else None
-    got = (norm(got_y), norm(got_x)) if len(got_x) and len(got_y) else None
+    want = (norm(want_y), norm(want_x)) if ln(want_x) and ln(want_y) else None
+    got = (norm(got_y), norm(got_x)) if ln(got_x) and ln(got_y) else None
     if want != got:
         return False, (f"roi {roi} selects rows {got_y} cols {got_x} of a {ny}x{nx} geobox; "
                        f"shared are rows {want_y} cols {want_x}")
@@ -821,6 +824,20 @@ def run(R: Run):
                 okA, okN, what = False, False, f"raised {e!r}"
             R.oracle(okA, "not-associative", {"op": op, **case}, what, sig="assoc|" + op)
             R.oracle(okN, "nary-differs-from-binary-fold", {"op": op, **case}, what, sig="nary|" + op)
+    # huge shapes / far shifts: Python ints must stay exact (a float detour loses them above 2**53)
+    BIG = [2**31 - 1, 2**31 + 1, 2**53 + 3, 2**63, 2**64 + 1, 2**100]
+    exact_bases = [b_ for b_ in bases if b_[2]]
+    for it in range(R.pick(200, 2000)):
+        nm, B, ex = rng.choice(exact_bases)
+
+        def dim():
+            return rng.choice(BIG) + rng.randint(-2, 2) if rng.random() < 0.6 else rng.randint(0, 9)
+
+        def shift():
+            return rng.choice([0, 1, -3, 7, 2**20 + 1, -(2**30) - 7, 2**40 + 1])
+
+        pair_ops(member(B, shift(), shift(), dim(), dim()), member(B, shift(), shift(), dim(), dim()), nm, "huge", ex)
+
     for op, fn in (("union", geobox_union_conservative), ("inter", geobox_intersection_conservative)):
         R.corr(f"c16 {op} []", real(lambda: enc_gbox(fn([]))), sig=f"{op}|empty-list")
         g1 = member(bases[0][1], 2, 3, 4, 5)
@@ -900,6 +917,25 @@ def run(R: Run):
             continue
         pts = [(float(x), float(y)) for x, y in pts]
         encl_case(g, pts, kind, "N" if it % 53 == 0 else "1", nm)
+
+    # pixel coordinates just off integers / half-integers (pure power-of-two scale, zero offset: every float
+    # operation of wld2pix is exact, so a "snap almost-integers before floor/ceil" clean-up is visible)
+    for it in range(R.pick(300, 3000)):
+        sgn = rng.choice([(1, -1), (1, 1), (-1, -1)])
+        s_ = 2.0 ** rng.randint(-3, 5)
+        Bq = (Fr(sgn[0] * s_), Fr(0), Fr(0), Fr(0), Fr(sgn[1] * s_), Fr(0))
+        g = mk_gbox(Bq, rng.randint(1, 9), rng.randint(1, 9), "1")
+        kind = rng.choice(["bbox", "mpoint", "point", "line"])
+        n = {"bbox": 2, "mpoint": rng.randint(1, 3), "point": 1, "line": 2}[kind]
+
+        def coord():
+            return rng.randint(-20, 20) + rng.choice([0.0, 0.0, 0.5]) + rng.choice([-1, 0, 1]) * rng.choice(DELTAS)
+
+        pix = [(coord(), coord()) for _ in range(n)]
+        if kind == "line" and pix[0] == pix[1]:
+            continue
+        pts = [(sgn[0] * s_ * x_, sgn[1] * s_ * y_) for x_, y_ in pix]
+        encl_case(g, pts, kind, "1", "near-int")
 
     # ---------------------------------------------------------------- G. snap_to
     sub_offs = [Fr(0), Fr(1, 2), Fr(-1, 2), Fr(1, 4), Fr(-1, 4), Fr(3, 4), Fr(-3, 4), Fr(1, 8), Fr(5, 8), Fr(1, 2) + Fr(1, 2**30),
